@@ -79,7 +79,7 @@ def setup() -> None:
     import jinja2.utils as U
 
     T.TOGGLE_LINE[0] = True
-    T.install(src, line_events=True, instr_classes=[U.LRUCache])
+    T.install(src, line_events=True, instr_classes=[U.LRUCache, __import__("functools").cached_property])
     U.Lock = T.SimLock
     T.neutralise_real_locks()
     T.install_threading_factories()
@@ -462,101 +462,123 @@ def run_schedule(tape, out, P, cfg):
         else:
             step = 1 + tape.draw(h, "s")
         plan.append((tid, step, tape.draw(nt - 1, "s")))
-    sched, results, changed = execute(tape, plan, False)
-    out.count("schedule_runs")
-    out.count("preemptions_fired", sched.preempts_fired)
-    out.count("lock_contention_blocks", sched.lock_blocks)
-    out.count("steps", sched.gstep)
-    out.count(["cache_hot", "cache_code_memo", "cache_cold_compile_in_run"][warm])
-    for tid, step, _ in plan:
-        regs = s0.threads[tid].regions or []
-        if 0 < step <= len(regs):
-            out.count("preempt_region_" + regs[step - 1])
-    dec = {
-        "kind": "schedule", "templates": P.templates, "tags": sorted(P.tags), "config": vars(cfg), "cache_mode": warm,
-        "template_globals": dict(TG),
-        "data_seeds": dseeds,
-        "threads": [[[e, SYNC_APIS[a], f"data{di}"] for e, a, di in ops] for ops in progs],
-        "plan(tid,local_step,target)": plan, "switch_trace": sched.trace[:60], "serial_horizons": horizons,
-        "results": results,
-    }
-    out.decoded = dec
-    out.trace = digest([sched.trace, results, [st.local_step for st in sched.threads]])
-    if sched.abort == "deadlock":
-        out.violate(("deadlock",), trace=sched.trace[-5:])
-        return
-    if sched.abort:
-        raise T.HarnessError("run aborted: " + sched.abort)
-    for st in sched.threads:
-        if st.exc is not None:
-            if isinstance(st.exc, A.SimStall):
-                out.violate(("stall",), stall=str(st.exc))
-                return
-            raise T.HarnessError(f"harness thread raised {st.exc!r}")
-    refs = {}
-    mism = None
-    for tid, ops in enumerate(progs):
-        for j, r_ in enumerate(results[tid]):
-            if r_ is not None and r_[0] == "ok-with-template-internal-object" and not changed:
-                out.violate(("template-internal-object-in-output", SYNC_APIS[ops[j][1]]), thread=tid, op=j, got=r_)
-                return
-    for tid, ops in enumerate(progs):
-        for j, (entry, api, di) in enumerate(ops):
-            key = (entry, api, dseeds[di])
-            if key not in refs:
-                refs[key] = _reference(cfg, P, entry, api, dseeds[di])
-            if results[tid][j] != refs[key] and mism is None:
-                r_ = results[tid][j]
-                if tid == fthread and r_ and r_[0] == "raised" and r_[1][0] == "PrivateFault":
-                    out.count("thread_fault_propagated")
-                    continue  # the render that met the injected fault
-                mism = (tid, j, results[tid][j], refs[key])
-    sig = None
-    if changed:
-        sig = ("input-modified", changed, "concurrent")
-        detail = {"changed": changed}
-    elif mism:
-        tid, j, got, want = mism
-        serial_ok = r0[tid][j] == want
-        sig = ("render-differs", "concurrent" if serial_ok else "also-serial", got[0] if got else "none", want[0])
-        detail = {"thread": tid, "op": j, "got": got, "expected": want, "serial_result": r0[tid][j]}
-    if sig:
-        if "module_state" in P.tags and not changed:
-            # KF-C29-1 classifier: fresh Environment per render over the same loader and data objects
-            env_, datas = build()
-            ok2 = True
-            for tid, ops in enumerate(progs):
-                for j, (entry, api, di) in enumerate(ops):
-                    e2 = cfg.env(P)
-                    r = _render(e2, entry, api, datas[di], Tape(streams={}))[0]
-                    if r != refs[(entry, api, dseeds[di])]:
-                        ok2 = False
-            if ok2:
-                out.known = "KF-C29-1"
-        if (out.known is None and mism and not changed and "module_eval_ctx" in P.tags and mism[2] and mism[2][0] == "ok"
-                and mism[3][0] == "ok" and not serial_ok_is_false(r0, mism)):
-            # KF-C37-1 under threads: an {% autoescape %} block inside a macro of a module imported without context
-            # switches the shared module context while another thread renders through it.  Only when EVERY
-            # mismatching render differs from its reference in nothing but escaping, the serial execution of the same
-            # thread programs is correct, and a fresh Environment per render removes the mismatch.
-            only_escaping = all(
-                results[t_][j_] == refs[(e_, a_, dseeds[d_])] or (
-                    results[t_][j_] and results[t_][j_][0] == "ok" and refs[(e_, a_, dseeds[d_])][0] == "ok")
-                for t_, ops_ in enumerate(progs) for j_, (e_, a_, d_) in enumerate(ops_))
-            if only_escaping:
+    refs: dict = {}
+    plans = [plan]
+    if P.features.get("micro"):
+        # micro programs are ~100 steps long: besides the drawn plan, a spread of SINGLE pre-emptions of each of the
+        # first two threads (switch to the next thread, which then runs until it ends or blocks) is tried as well
+        for tid_ in range(min(nt, 2)):
+            regs_ = s0.threads[tid_].regions or []
+            # every step of the serial run that lies in filter / test / runtime-helper code (that is where a micro
+            # program's shared helper lives), at most 48 per thread, evenly thinned beyond that
+            idx_ = [i_ for i_, r_ in enumerate(regs_) if r_ == "runtime"]
+            if len(idx_) > 48:
+                idx_ = idx_[:: max(len(idx_) // 48, 1)][:48]
+            for i_ in idx_:
+                plans.append([(tid_, 1 + i_, 0)])
+
+    def attempt(plan):
+        sched, results, changed = execute(tape, plan, False)
+        out.count("schedule_runs")
+        out.count("preemptions_fired", sched.preempts_fired)
+        out.count("lock_contention_blocks", sched.lock_blocks)
+        out.count("steps", sched.gstep)
+        out.count(["cache_hot", "cache_code_memo", "cache_cold_compile_in_run"][warm])
+        for tid, step, _ in plan:
+            regs = s0.threads[tid].regions or []
+            if 0 < step <= len(regs):
+                out.count("preempt_region_" + regs[step - 1])
+        dec = {
+            "kind": "schedule", "templates": P.templates, "tags": sorted(P.tags), "config": vars(cfg), "cache_mode": warm,
+            "template_globals": dict(TG),
+            "data_seeds": dseeds,
+            "threads": [[[e, SYNC_APIS[a], f"data{di}"] for e, a, di in ops] for ops in progs],
+            "plan(tid,local_step,target)": plan, "switch_trace": sched.trace[:60], "serial_horizons": horizons,
+            "results": results,
+        }
+        out.decoded = dec
+        out.trace = digest([sched.trace, results, [st.local_step for st in sched.threads]])
+        if sched.abort == "deadlock":
+            out.violate(("deadlock",), trace=sched.trace[-5:])
+            return True
+        if sched.abort:
+            raise T.HarnessError("run aborted: " + sched.abort)
+        for st in sched.threads:
+            if st.exc is not None:
+                if isinstance(st.exc, A.SimStall):
+                    out.violate(("stall",), stall=str(st.exc))
+                    return True
+                raise T.HarnessError(f"harness thread raised {st.exc!r}")
+        mism = None
+        for tid, ops in enumerate(progs):
+            for j, r_ in enumerate(results[tid]):
+                if r_ is not None and r_[0] == "ok-with-template-internal-object" and not changed:
+                    out.violate(("template-internal-object-in-output", SYNC_APIS[ops[j][1]]), thread=tid, op=j, got=r_)
+                    return True
+        for tid, ops in enumerate(progs):
+            for j, (entry, api, di) in enumerate(ops):
+                key = (entry, api, dseeds[di])
+                if key not in refs:
+                    refs[key] = _reference(cfg, P, entry, api, dseeds[di])
+                if results[tid][j] != refs[key] and mism is None:
+                    r_ = results[tid][j]
+                    if tid == fthread and r_ and r_[0] == "raised" and r_[1][0] == "PrivateFault":
+                        out.count("thread_fault_propagated")
+                        continue  # the render that met the injected fault
+                    mism = (tid, j, results[tid][j], refs[key])
+        sig = None
+        if changed:
+            sig = ("input-modified", changed, "concurrent")
+            detail = {"changed": changed}
+        elif mism:
+            tid, j, got, want = mism
+            serial_ok = r0[tid][j] == want
+            sig = ("render-differs", "concurrent" if serial_ok else "also-serial", got[0] if got else "none", want[0])
+            detail = {"thread": tid, "op": j, "got": got, "expected": want, "serial_result": r0[tid][j]}
+        if sig:
+            if "module_state" in P.tags and not changed:
+                # KF-C29-1 classifier: fresh Environment per render over the same loader and data objects
                 env_, datas = build()
                 ok2 = True
                 for tid, ops in enumerate(progs):
                     for j, (entry, api, di) in enumerate(ops):
                         e2 = cfg.env(P)
-                        if _render(e2, entry, api, datas[di], Tape(streams={}))[0] != refs[(entry, api, dseeds[di])]:
+                        r = _render(e2, entry, api, datas[di], Tape(streams={}))[0]
+                        if r != refs[(entry, api, dseeds[di])]:
                             ok2 = False
                 if ok2:
-                    out.known = "KF-C37-1"
-        out.violate(sig, **detail)
-        return
-    if sched.preempts_fired or sched.lock_blocks:
-        out.case = digest(["sched", P.templates, progs, dseeds, sched.trace])
+                    out.known = "KF-C29-1"
+            if (out.known is None and mism and not changed and "module_eval_ctx" in P.tags and mism[2] and mism[2][0] == "ok"
+                    and mism[3][0] == "ok" and not serial_ok_is_false(r0, mism)):
+                # KF-C37-1 under threads: an {% autoescape %} block inside a macro of a module imported without context
+                # switches the shared module context while another thread renders through it.  Only when EVERY
+                # mismatching render differs from its reference in nothing but escaping, the serial execution of the same
+                # thread programs is correct, and a fresh Environment per render removes the mismatch.
+                only_escaping = all(
+                    results[t_][j_] == refs[(e_, a_, dseeds[d_])] or (
+                        results[t_][j_] and results[t_][j_][0] == "ok" and refs[(e_, a_, dseeds[d_])][0] == "ok")
+                    for t_, ops_ in enumerate(progs) for j_, (e_, a_, d_) in enumerate(ops_))
+                if only_escaping:
+                    env_, datas = build()
+                    ok2 = True
+                    for tid, ops in enumerate(progs):
+                        for j, (entry, api, di) in enumerate(ops):
+                            e2 = cfg.env(P)
+                            if _render(e2, entry, api, datas[di], Tape(streams={}))[0] != refs[(entry, api, dseeds[di])]:
+                                ok2 = False
+                    if ok2:
+                        out.known = "KF-C37-1"
+            out.violate(sig, **detail)
+            return True
+        if sched.preempts_fired or sched.lock_blocks:
+            out.cases.append(digest(["sched", P.templates, progs, dseeds, sched.trace]))
+        return False
+
+
+    for i_, pl_ in enumerate(plans):
+        out.evals = i_ + 1  # every executed schedule is one evaluation
+        if attempt(pl_):
+            return
 
 
 CAP = [6_000_000]
@@ -572,7 +594,7 @@ def run(tape: Tape) -> Outcome:
     setup()
     clear_process_caches()  # a run must not depend on the runs before it in this worker
     out = Outcome()
-    kind = tape.draw(3)  # 0 history, 1-2 schedule
+    kind = tape.draw(4)  # 0 history, 1-2 schedule, 3 schedule over a micro program
     is_async = tape.draw(4) == 3 if kind else bool(tape.draw(2))
     ae = tape.draw(3)  # autoescape: off, on, by template name (callable)
     lc = bool(tape.draw(2))
@@ -580,8 +602,15 @@ def run(tape: Tape) -> Outcome:
     tagged_ok = tape.draw(8) == 7
     size = 1 + tape.draw(4)
     envcls = (0, 0, 0, 0, 0, 1, 2, 2)[tape.draw(8, "m")]
-    P = Gen(tape, is_async=is_async, loopcontrols=lc, size=size, allow_module_state=tagged_ok,
-            env_globals=True, template_globals=True, native=envcls == 1, pair_den=8).generate()
+    if kind == 3:
+        # two tiny templates using one filter / test / global in two ways: a schedule run is ~100 steps long, so a
+        # drawn pre-emption lands INSIDE the helper both threads share (module-level state of a filter shows here)
+        envcls = 0 if envcls == 1 else envcls
+        P = W.micro_program(tape)
+        out.count("micro_program_runs")
+    else:
+        P = Gen(tape, is_async=is_async, loopcontrols=lc, size=size, allow_module_state=tagged_ok,
+                env_globals=True, template_globals=True, native=envcls == 1, pair_den=8).generate()
     TG.clear()
     # only the top-level template gets template-level globals: a template that is also included /
     # imported / extended elsewhere would (by documented design) keep them in the cache
